@@ -10,6 +10,10 @@ hex, "-" = empty string; integers are decimal):
   get <loc> <tok> <signing 0|1> <ttlNs> <key> <absent|p<bodyhex>> <nowNs>
         -> 400 | 401 | 403 | 404 | 200 <bodyhex>   (remote proxy with no RemoteClusters
            configured: 401 without a token, else 400)
+  kcsign / kcverify                       -- as sign / verify, through sdk/go/keepclient (verdict + " same")
+  geturl <rawpath> <none|hdr> <signing 0|1> <ttlNs> <key> <absent|p<bodyhex>> <nowNs>
+        raw request path (percent-escapes as sent) and raw Authorization header value
+        -> badurl | 301 <hex cleaned path> | status as for get
   getnow <loc> <tok> <ttlNs> <key> <absent|p<bodyhex>> <nowNs>
         sign with expiry = nowNs/1e9 (the second that has begun), GET with signing on -> status as for get
   put <body> <tok> <tok2> <signing 0|1> <ttlNs> <key> <nowNs>
@@ -88,6 +92,36 @@ def step (line : String) : String :=
     | some loc, some tok, some signing, some ttl, some key =>
       match body, now.toInt? with
       | some body, some now => getStatus ⟨signing, ttl, key⟩ loc tok now body
+      | _, _ => "bad-op"
+    | _, _, _, _, _ => "bad-op"
+  | ["kcsign", loc, tok, exp, ttl, key] =>
+    -- sdk/go/keepclient/perms.go: SignLocator = arvados.SignLocator
+    match decHex loc, decHex tok, exp.toInt?, ttl.toInt?, decHex key with
+    | some loc, some tok, some exp, some ttl, some key => encHex (signLocator hmacSha1 loc tok exp ttl key)
+    | _, _, _, _, _ => "bad-op"
+  | ["kcverify", loc, tok, ttl, key, now] =>
+    match decHex loc, decHex tok, ttl.toInt?, decHex key, now.toInt? with
+    | some loc, some tok, some ttl, some key, some now =>
+      showVerdict (verifySignature hmacSha1 loc tok ttl key now) ++ " same"
+    | _, _, _, _, _ => "bad-op"
+  | ["geturl", raw, hdr, signing, ttl, key, present, now] =>
+    let body : Option (Option Str) :=
+      if present == "absent" then some none
+      else if present.startsWith "p" then
+        (if present.length == 1 then some [] else decHex (present.drop 1).toString).map some
+      else none
+    let hdr? : Option (Option Str) := if hdr == "none" then some none else (decHex hdr).map some
+    match decHex raw, hdr?, parseBool signing, ttl.toInt?, decHex key with
+    | some raw, some hdr, some signing, some ttl, some key =>
+      match body, now.toInt? with
+      | some body, some now =>
+        match pctDecode raw with
+        | none => "badurl"
+        | some path =>
+          let cfg : KSConfig := ⟨signing, ttl, key⟩
+          match serveGET hmacSha1 cfg path hdr now with
+          | .redirect p => "301 " ++ encHex p
+          | .handled _ => getStatus cfg (path.drop 1) (getAPIToken hdr) now body
       | _, _ => "bad-op"
     | _, _, _, _, _ => "bad-op"
   | ["getnow", loc, tok, ttl, key, present, now] =>
